@@ -121,6 +121,8 @@ func (u *Unit) verify() (err error) {
 	names := u.resultNames(con, fn.Signature)
 	for _, r := range u.retInfos {
 		site := fmt.Sprintf("ret%d", r.blk)
+		u.s.curTag = r.node
+		u.curAnc = u.nodeAnc[r.node]
 		env := u.newEnv(r.st, u.entry, fn, pkg)
 		for i, nm := range names {
 			env.vars[nm] = TV{T: r.vals[i], Ty: fn.Signature.Results().At(i).Type()}
@@ -142,6 +144,9 @@ func (u *Unit) verify() (err error) {
 
 func (u *Unit) assumeAxioms(st *State) {
 	for _, ax := range u.eng.axioms {
+		if !u.eng.pkgReaches(u.con.PkgPath, ax.PkgPath) {
+			continue
+		}
 		pkg := u.eng.pkgByPath(ax.PkgPath)
 		env := u.newEnv(st, st, nil, pkg)
 		func() {
@@ -184,8 +189,6 @@ type assignLoc struct {
 
 func (u *Unit) parseAssign(env *Env, a string) assignLoc {
 	a = strings.TrimSpace(a)
-	e := parseSpecExpr(a)
-	_ = e
 	switch {
 	case a == "everything":
 		return assignLoc{kind: "everything"}
